@@ -188,4 +188,84 @@ theorem file_get {V} (L : Nat) (m : Assoc V) (hs : SortedMap m) (f : FstIndex)
     | exact i => simp [List.getElem?_map]
     | next _ => rfl
 
+/-- files with at most one block carry no index (`fst_len = 0`): `get_block_with_key` is the one
+pseudo-block whatever the FST would say, and `term_ord_or_next` / `get` on the bytes equal the
+operations of the (single-block or empty) block model -/
+theorem small_file_key_ops {V} (L : Nat) (m : Assoc V) (hs : SortedMap m)
+    (hsingle : (build L m).single = true)
+    (geFirst : Key → Option Nat) (skip : List UInt8 → List UInt8) (vals : List UInt8 → List V)
+    (ps : List (List UInt8))
+    (hlen : ps.length = (build L m).blocks.length)
+    (hskip : ∀ (i : Nat) p b, ps[i]? = some p → (build L m).blocks[i]? = some b →
+      skip p = encodeBlockKeys (keys b.entries) ∧ vals p = b.entries.map (·.2))
+    (hpsz : ∀ p ∈ ps, p ≠ [] ∧ p.length + 1 < 4294967296)
+    (numTerms version : Nat)
+    (hn : numTerms < 18446744073709551616) (hv : version < 4294967296) (k : Key) :
+    fileTermOrdOrNext geFirst skip (openFile (finishFile (frameBlocks ps) (u64enc 0) numTerms version)) k
+      = some ((build L m).termOrdOrNext k) ∧
+    fileGet geFirst skip vals (openFile (finishFile (frameBlocks ps) (u64enc 0) numTerms version)) k
+      = some ((build L m).get k) := by
+  have hblkfn : ∀ data : List UInt8, fileBlockForKey geFirst ⟨data, u64enc 0, numTerms, version⟩ k
+      = some ⟨0, 0, data.length⟩ := by
+    intro data
+    unfold fileBlockForKey
+    have : u64le (List.drop ((u64enc 0).length - 8) (u64enc 0)) = 0 := by decide
+    simp only [this, if_true]
+  have hloc : ((build L m).locateKey k).bind (build L m).blockAt
+      = some ((build L m).blocks.headD ⟨[], 0, []⟩) := by
+    unfold Dict.locateKey Dict.blockAt
+    simp [hsingle]
+  have hsl : (build L m).blocks.length ≤ 1 := by
+    unfold Dict.single at hsingle
+    simpa using hsingle
+  cases hb : (build L m).blocks with
+  | nil =>
+    have hps : ps = [] := List.eq_nil_of_length_eq_zero (by rw [hlen, hb]; rfl)
+    subst hps
+    rw [openFile_finish _ _ _ _ (by decide) hn hv]
+    unfold fileTermOrdOrNext fileGet Dict.termOrdOrNext Dict.get
+    rw [hblkfn, hloc, hb]
+    constructor <;> rfl
+  | cons b rest =>
+    have hrest : rest = [] := by
+      rw [hb] at hsl
+      simp only [List.length_cons] at hsl
+      exact List.eq_nil_of_length_eq_zero (by omega)
+    subst hrest
+    have hpl : ps.length = 1 := by rw [hlen, hb]; rfl
+    obtain ⟨p, hp⟩ : ∃ p, ps = [p] := by
+      cases ps with
+      | nil => simp at hpl
+      | cons p r =>
+        cases r with
+        | nil => exact ⟨p, rfl⟩
+        | cons q r' => simp at hpl
+    subst hp
+    obtain ⟨hp1, hp2⟩ := hpsz p (by simp)
+    obtain ⟨hsk, hvl⟩ := hskip 0 p b (by simp) (by rw [hb]; simp)
+    have hfo : b.firstOrd = 0 := by
+      have := build_firstOrd_ordStart L m 0 b (by rw [hb]; simp)
+      rw [this]; simp [ordStart]
+    have hinc : StrictInc (keys b.entries) := by
+      have hall : ∀ x ∈ keyBlocks (build L m), StrictInc x :=
+        strictInc_of_mem_flatten (by rw [keyBlocks_flatten]; exact hs)
+      apply hall
+      unfold keyBlocks
+      rw [hb]; simp
+    have hdl : (frameBlocks [p]).length < 18446744073709551616 := by
+      simp [frameBlocks, frameBlock, u32enc_length]; omega
+    rw [openFile_finish _ _ _ _ hdl hn hv]
+    unfold fileTermOrdOrNext fileGet Dict.termOrdOrNext Dict.get
+    rw [hblkfn, hloc, hb]
+    have hfb : frameBlocks [p] = frameBlock p ++ u32enc 0 := by simp [frameBlocks]
+    simp only [List.take_length, List.drop_zero, List.headD_cons]
+    rw [hfb, readBlocks_one_tail p _ hp1 hp2]
+    simp only [hsk, hvl, decodeBlockKeys_encode _ hinc, hfo]
+    refine ⟨?_, ?_⟩
+    · cases scanOrNext (keys b.entries) k 0 <;> first | rfl | trivial
+    · congr 1
+      cases scanOrNext (keys b.entries) k 0 with
+      | exact i => simp [List.getElem?_map]
+      | next _ => rfl
+
 end TantivyModel.SSTable
